@@ -536,8 +536,9 @@ func (mc *machine) run(iv *inv) error {
 				return mc.poison("OpAccessChain base")
 			}
 			region, off := regs[a], regs[a+1]
-			for i := range in.ac {
-				st := &in.ac[i]
+			ac := p.acs[in.c]
+			for i := range ac {
+				st := &ac[i]
 				if st.kind == sStruct {
 					off += st.add
 					continue
@@ -559,8 +560,9 @@ func (mc *machine) run(iv *inv) error {
 				return mc.poison("OpAccessChain base")
 			}
 			region, off, ml := regs[a], regs[a+1], regs[a+2]
-			for i := range in.ac {
-				st := &in.ac[i]
+			ac := p.acs[in.c]
+			for i := range ac {
+				st := &ac[i]
 				if region < regBuf0 {
 					region = regInvalid
 					break
@@ -1252,7 +1254,7 @@ func (mc *machine) run(iv *inv) error {
 		case OpUnreachable:
 			return mc.trap("unreachable", "OpUnreachable executed")
 		case xUnsupported:
-			return unsup("%s", in.s)
+			return unsup("%s", p.msgs[in.a])
 		default:
 			if in.op >= xGLSL {
 				if err := mc.execGLSL(iv, in); err != nil {
